@@ -354,6 +354,21 @@ theorem C08_qty_mul_div (env : ι → UnitInfo ℝ) (hpos : EnvPos env) (l r : Q
   · rw [Qty.mul, new_baseMag env hpos, (magnitude_addU env hpos _ _ hl hr).2]
   · rw [Qty.div, new_baseMag env hpos, (magnitude_subU env hpos _ _ hl hr).2]
 
+/-- constructor with the unit given as a (possibly uncertain) quantity `ref`: in base dimensions
+    the result is the product of the two uncertain numbers — value and error of `m * ref.mag`
+    times the exact unit factor of `ref` (so the sum/scale/first-order clauses of `*` apply,
+    and an uncertain reference never yields an exact result). -/
+theorem C08_ctor_quantity_unit (env : ι → UnitInfo ℝ) (hpos : EnvPos env) (m : Mag ℝ) (ref : Qty ι ℝ) :
+    (Qty.newQ env m ref).baseMag env =
+      ⟨(m.mul ref.mag).value * ref.units.magnitude env,
+       (m.mul ref.mag).error.map (fun e => e * ref.units.magnitude env)⟩ ∧
+    (∀ e, ref.mag.error = some e → ((Qty.newQ env m ref).baseMag env).error ≠ none) := by
+  refine ⟨new_baseMag env hpos _ _, ?_⟩
+  intro e he
+  rw [Qty.newQ, new_baseMag env hpos]
+  obtain ⟨v, me⟩ := m
+  cases me <;> simp [Mag.mul, mulErr, he]
+
 end quantities
 
 /-! ### arrays: `np.max` over all elements only enlarges the error -/
